@@ -54,9 +54,9 @@ func c21Reset() *blockchain.ChainState {
 func c21Hash(l int) types.WorkPackageHash {
 	var h types.WorkPackageHash
 	for i := range h {
-		h[i] = byte(0x11*(l+1) + i)
+		h[i] = byte(0x40 + i) // all labels share their first 31 bytes
 	}
-	h[0] = byte(0xF0 - 0x10*l) // h1 > h2 > … so that "sorted by hash" differs from list order
+	h[31] = byte(0xF0 - 0x10*l) // h1 > h2 > … so that "sorted by hash" differs from list order
 	return h
 }
 
